@@ -1,6 +1,8 @@
 // vnames: what a pattern NAME selects, observed on the implementation (property C14).
 // One request per line on stdin, one answer per line on stdout (strings hex-encoded):
 //   all                      -> `all opt V..` / `all vul V..` / `all qa V..`  (get_all_*; three lines)
+//   lowercheck               -> `lowercheck <cp>:<hex of lower-case form> ..` : every non-ASCII scalar value whose
+//                               str::to_lowercase() is made of ASCII characters only (exhaustive over Unicode)
 //   sel <cat> <name> <src>   -> `unknown` (str_to_* panicked) |
 //                               `ok <Variant> <lines>|PANIC  <direct>|PANIC|nodet <section>|PANIC`
 //        <lines>  = analyze_for_*(src, 0, str_to_*(name))            (comma separated, `-` when empty)
@@ -94,6 +96,19 @@ fn main() {
                 writeln!(w, "all opt {}", o.join(" ")).unwrap();
                 writeln!(w, "all vul {}", v.join(" ")).unwrap();
                 writeln!(w, "all qa {}", q.join(" ")).unwrap();
+            }
+            "lowercheck" => {
+                // every non-ASCII scalar value whose str::to_lowercase() consists of ASCII characters only
+                let mut hits: Vec<String> = vec![];
+                for cp in 0x80u32..=0x10FFFF {
+                    if let Some(c) = char::from_u32(cp) {
+                        let l = c.to_string().to_lowercase();
+                        if l.is_ascii() {
+                            hits.push(format!("{:x}:{}", cp, hex(&l)));
+                        }
+                    }
+                }
+                writeln!(w, "lowercheck {}", hits.join(" ")).unwrap();
             }
             "sel" => {
                 let cat = it.next().unwrap_or("").to_string();
